@@ -394,6 +394,9 @@ impl Stdfs {
         // directory traversal that otherwise wouldn't be allowed.
         let m = opts.clone();
         entries = entries.follow(opts.follow).dirs_first().pre_op(move |x| {
+            // A followed link stands for its target so use the target's own kind and mode
+            let target = if m.follow && x.is_symlink() { Stdfs::entry(x.path()).ok() } else { None };
+            let x = target.as_ref().unwrap_or(x);
             let m1 = sys::mode(x, m.dirs, &m.sym)?;
             if (!x.is_symlink() || m.follow) && x.is_dir() && !sys::revoking_mode(x.mode(), m1) && x.mode() != m1 {
                 fs::set_permissions(x.path(), fs::Permissions::from_mode(m1))?;
@@ -405,11 +408,15 @@ impl Stdfs {
         for entry in entries {
             let src = entry?;
 
+            // A followed link stands for its target so use the target's own kind and mode
+            let target = if opts.follow && src.is_symlink() { Stdfs::entry(src.path()).ok() } else { None };
+            let src = target.as_ref().unwrap_or(&src);
+
             // Compute mode based on octal and symbolic values
             let m2 = if src.is_dir() {
-                sys::mode(&src, opts.dirs, &opts.sym)?
+                sys::mode(src, opts.dirs, &opts.sym)?
             } else if src.is_file() {
-                sys::mode(&src, opts.files, &opts.sym)?
+                sys::mode(src, opts.files, &opts.sym)?
             } else {
                 0
             };
